@@ -1195,9 +1195,17 @@ pub fn scale_image(seed: u64) -> (Vec<u8>, Option<usize>) {
         // a long run of metadata items
         let n = 100 + r.below(900);
         let mut items = Vec::new();
+        // coordinated overrun: every item's child declares a size beyond its parent (a parser
+        // must reject the first one; one that does not re-reads the run again and again)
+        let overrun: u32 = if r.chance(1, 3) { 8 + r.below(20_000) as u32 } else { 0 };
         for i in 0..n {
             let t: [u8; 4] = *r.pick(&[[0xA9, b'n', b'a', b'm'], [0xA9, b'd', b'a', b'y'], *b"desc", *b"covr", *b"zzzz"]);
-            items.extend(bx(&t, &data_box(1, &[b'a' + (i % 26) as u8; 3])));
+            let mut item = bx(&t, &data_box(1, &[b'a' + (i % 26) as u8; 3]));
+            if overrun > 0 {
+                let declared = be32(&item, 8) + overrun;
+                item[8..12].copy_from_slice(&declared.to_be_bytes());
+            }
+            items.extend(item);
         }
         let meta = full(b"meta", 0, 0, &cat(&[&hdlr_box(b"mdir", b""), &bx(b"ilst", &items)]));
         moov_kids.push(bx(b"udta", &meta));
